@@ -54,12 +54,15 @@ THEOREMS = [
     "C01_untagged_simple_sound",
     "C01_from_variants_coherent_sound",
     "C01_from_keys_once",
-    "C01_from_tuple1_sound",
+    "C01_from_tuple1_fixed",
+    "C01_from_tuple1_prefix_sound",
+    "C01_from_tuple1_regression",
     "C01_deref_acyclic_sound",
     "C01_tryfrom_string_sound",
     "C01_bespoke_once",
     "C01_defaults_rendered",
     "C01_defaults_ok_sound",
+    "C01_default_tuple1_sound",
     "C01_acyclic",
     "C01_acyclic_sound",
     "C01_serde_rules_sound",
@@ -93,7 +96,7 @@ FINDING_TEXT = {
     "C01-3": "a newtype named `Ok` / `Err` captures the unqualified `Ok(..)` / `Err(..)` of the conversion templates (E0308)",
     "C01-4": "two property defaults get the same function name in `mod defaults` (sanitize(Type_prop) collides) (E0428)",
     "C01-5": "fixed arrays longer than 32 / tuples longer than 12 are accepted but serde / Debug do not cover them (E0277)",
-    "C01-6": "a one-element tuple variant gets `impl From<(T,)>` whose body builds `Self::V(value.0,)` (E0308)",
+    "C01-16": "the default of a one-element tuple variant is rendered `E::V(x)` for the variant declared `V((T,))` (E0308)",
     "C01-7": "a definition that is a reference cycle of aliases becomes `struct A(Box<A>)`: `From<A> for Box<A>` (E0119), Deref recursion (E0055)",
     "C01-8": "an untagged enum with an array variant and a unique-items array variant of the same items gets `From<Vec<T>>` twice (E0119)",
     "C01-9": "a newtype over a replacement / conversion type `String` declared with FromStr gets `TryFrom<String>` next to `From<String>` (E0119)",
@@ -623,8 +626,10 @@ def classify(case, g, kind, codes, msgs):
         return "C01-5"
     t1 = any(v["details"]["k"] == "tuple" and len(v["details"]["ids"]) == 1
              for e in ents.values() if e["kind"] == "enum" for v in e["variants"])
-    if t1 and codes <= {"E0308"}:
-        return "C01-6"
+    has_default = any(p["state"]["k"] == "default" for e in ents.values() if e["kind"] == "struct" for p in e["props"]) or \
+        any(e.get("default") is not None for e in ents.values() if e["kind"] in ("enum", "struct", "newtype"))
+    if t1 and has_default and codes <= {"E0308"}:
+        return "C01-16"
     if newtype_deref_cycle(ents) and codes <= {"E0119", "E0055", "E0275"}:
         return "C01-7"
     if codes <= {"E0119"} and "From<" in msg and "Vec<" in msg:
@@ -789,7 +794,8 @@ TAG_FINDINGS = {
     "variants": set(),
     "idents": {"C01-11"},
     "from_variants": {"C01-8"},
-    "from_tuple1": {"C01-6"},
+    "from_tuple1": set(),          # C01-6 fixed by d9b019c: the conjunct holds for every space now
+    "default_tuple1": {"C01-16"},
     "deref_cycle": {"C01-7"},
     "tryfrom_string": {"C01-9"},
     "acyclic": {"C01-14", "C01-10"},
@@ -800,7 +806,7 @@ TAG_FINDINGS = {
     "prelude_vec": {"C01-2"},
     "prelude_result": {"C01-3"},
     "untagged_simple": {"C01-15"},
-    "defaults": set(),
+    "defaults": {"C01-16"},        # C06's expr_typed may type the tuple-variant default by its declaration too
 }
 MODEL_GAPS = {"C01-13"}     # NFC normalisation of identifiers is not modelled (Props speak of scalar sequences)
 
@@ -834,6 +840,7 @@ def run(ctx):
             m = mk("corpus:" + os.path.basename(f)[:-5], "corpus", c.get("settings", {}), c["steps"],
                    c.get("supported", False), ["corpus"], c.get("note", ""))
             m["expect_finding"] = (c.get("expect") or {}).get("finding")
+            m["expect_fixed"] = (c.get("expect") or {}).get("fixed")
             fixed.insert(0, m)
 
     # ---------------- small scope: every schema alone through the real converter, then packed for rustc
@@ -950,6 +957,14 @@ def run(ctx):
                          "id": c["id"], "codes": r["codes"], "messages": r["msgs"][:4], "detail": r["detail"],
                          "settings": c["settings"], "steps": c["steps"]})
 
+    # witnesses of FIXED findings are regression cases: they must be accepted and compile (or be rejected at add
+    # when the fix is a rejection); a fixed entry suppresses nothing
+    for r in results:
+        fx = r["case"].get("expect_fixed")
+        if fx and r["kind"] != fx.get("now", "ok"):
+            viol.append({"what": "regression of a fixed finding (%s): rustc rejects the generated module" % fx.get("commit"),
+                         "id": r["case"]["id"], "codes": r["codes"], "messages": r["msgs"][:4], "detail": r["detail"],
+                         "outcome": r["kind"], "settings": r["case"]["settings"], "steps": r["case"]["steps"]})
     wit_bad = [(r["case"]["id"], r["case"].get("expect_finding"), r.get("finding"), r["kind"]) for r in results
                if r["case"]["stream"] == "corpus" and r["case"].get("expect_finding") and r["kind"] not in ("ok", "rejected")
                and r.get("finding") != r["case"]["expect_finding"]]
@@ -1063,8 +1078,6 @@ def run(ctx):
         v["observed"] = v["what"]
         v["expected"] = "ingest Ok => render ok => rustc ok; supported fragment => ingest Ok"
         ctx.violation(v)
-    if ctx.broken() and not ctx.violations:
-        ctx.violation({"broken_obligations": [(o[0], o[2][:1500]) for o in ctx.broken()]}, no_input=True)
 
     # ---------------- evidence
     ctx.coverage["rule"] = ("every case: ingest Ok => render ok => module compiles (rustc 1.80.1); supported => ingest Ok; "
@@ -1085,3 +1098,5 @@ def run(ctx):
     if not quick and coq_ok:
         rc, out, err = vlib.sh("cd %s && timeout 900 coqchk -silent -o -Q theories Typify Typify.Props.C01" % vlib.COQ, timeout=1000)
         ctx.oblige("coqchk re-checks Props.C01 and dependencies", rc == 0, (out + err)[-1500:])
+    if ctx.broken() and not ctx.violations:
+        ctx.violation({"broken_obligations": [(o[0], o[2][:1500]) for o in ctx.broken()]}, no_input=True)
